@@ -19,9 +19,11 @@ package main
 
 import (
 	"fmt"
+	"os"
 	"sort"
 	"strconv"
 	"strings"
+	"time"
 	"unicode"
 	"unicode/utf8"
 
@@ -435,11 +437,56 @@ func sameValue(a, b evalOut) bool {
 	if a.isErr || b.isErr {
 		return a.isErr == b.isErr
 	}
-	if _, isFn := a.val.(*types.XFunction); isFn {
-		_, isFn2 := b.val.(*types.XFunction)
-		return isFn2 && a.desc == b.desc
+	return deepSame(a.val, b.val)
+}
+
+// deepSame: structural equality of values; function values (anonymous functions are new objects on every
+// evaluation, types.Equals compares them by identity) are alike when both are functions with the same description;
+// errors inside containers are alike when both are errors
+func deepSame(x, y types.XValue) bool {
+	if types.IsNil(x) || types.IsNil(y) {
+		return types.IsNil(x) && types.IsNil(y)
 	}
-	return types.Equals(a.val, b.val) && a.desc == b.desc
+	if types.IsXError(x) || types.IsXError(y) {
+		return types.IsXError(x) && types.IsXError(y)
+	}
+	switch xv := x.(type) {
+	case *types.XFunction:
+		yv, ok := y.(*types.XFunction)
+		return ok && xv.Describe() == yv.Describe()
+	case *types.XArray:
+		yv, ok := y.(*types.XArray)
+		if !ok || xv.Count() != yv.Count() {
+			return false
+		}
+		for i := 0; i < xv.Count(); i++ {
+			if !deepSame(xv.Get(i), yv.Get(i)) {
+				return false
+			}
+		}
+		return true
+	case *types.XObject:
+		yv, ok := y.(*types.XObject)
+		if !ok {
+			return false
+		}
+		xp, yp := xv.Properties(), yv.Properties()
+		if len(xp) != len(yp) {
+			return false
+		}
+		for i := range xp {
+			if xp[i] != yp[i] {
+				return false
+			}
+			a, _ := xv.Get(xp[i])
+			b, _ := yv.Get(yp[i])
+			if !deepSame(a, b) {
+				return false
+			}
+		}
+		return true
+	}
+	return types.Equals(x, y) && types.Describe(x) == types.Describe(y)
 }
 
 func templateReal(tpl string, ctx map[string]types.XValue) (out string, hasErr bool, panicked string) {
@@ -519,6 +566,7 @@ func main() {
 		str  string
 	}
 	var good []parsed
+	evalTimeouts := 0
 
 	// ------------------------------------------------------------------ parse/print correspondence + R1
 	doParse := func(e string, evalToo bool, rc *hx.Rand) {
@@ -559,8 +607,6 @@ func main() {
 		parseSh.Add(fmt.Sprintf("{| p_in := %s; p_low := %s; p_print := %s; p_ok := true; p_tree := %s; p_str := %s |}",
 			hx.Str(e), exsx.RuneMap(unicode.ToLower, e), exsx.RuneSet(unicode.IsPrint, vals), tree, hx.Str(str)),
 			map[string]any{"expression": e}, map[string]any{"printed": str})
-		good = append(good, parsed{e, p, ti, str})
-
 		// R1
 		res.OracleChecks++
 		p2, err2 := excellent.Parse(str, nil)
@@ -580,10 +626,40 @@ func main() {
 		if !evalToo {
 			return
 		}
-		for i := 0; i < 5; i++ {
+		evalFailed := false
+		defer func() {
+			// expressions whose round trip is clean are embedded in templates for R2/R3
+			if !evalFailed {
+				good = append(good, parsed{e, p, ti, str})
+			}
+		}()
+		if os.Getenv("C11_TRACE") != "" {
+			fmt.Fprintf(os.Stderr, "EVAL %q\n", e)
+		}
+		for i := 0; i < 5 && evalTimeouts < 3; i++ {
 			ctx := randContext(rc, false)
-			v1, pa := evalExpr(p, ctx)
-			v2, pb := evalExpr(p2, ctx)
+			type pair struct {
+				v1, v2 evalOut
+				pa, pb string
+			}
+			done := make(chan pair, 1)
+			go func() {
+				v1, pa := evalExpr(p, ctx)
+				v2, pb := evalExpr(p2, ctx)
+				done <- pair{v1, v2, pa, pb}
+			}()
+			var pr pair
+			select {
+			case pr = <-done:
+			case <-time.After(5 * time.Second):
+				// the evaluation goes on in its goroutine; after three of them no more evaluations are started
+				evalTimeouts++
+				res.Dist("parse:evaluation-timeout(skipped)")
+				res.Notes = append(res.Notes, fmt.Sprintf("evaluation of %q took more than 5 s: skipped", e))
+				evalFailed = true
+				return
+			}
+			v1, v2, pa, pb := pr.v1, pr.v2, pr.pa, pr.pb
 			if pa != "" || pb != "" {
 				if (pa == "") != (pb == "") {
 					res.Fail("roundtrip:eval-panics-differ:"+rootType(p), map[string]any{"expression": e, "printed": str}, pa+" / "+pb)
@@ -591,6 +667,7 @@ func main() {
 				continue
 			}
 			if !sameValue(v1, v2) {
+				evalFailed = true
 				res.Fail("roundtrip:eval-differs:"+rootType(p), map[string]any{"expression": e, "printed": str, "context": types.NewXObject(ctx).Describe()},
 					fmt.Sprintf("%q evaluates to (err=%v) %s, its printed form %q to (err=%v) %s", e, v1.isErr, v1.desc, str, v2.isErr, v2.desc))
 				break
